@@ -4,7 +4,7 @@ import re
 from specs import lexspec as LS
 
 _NAME = re.compile(LS.NAME)
-_NUM = [re.compile(p) for p in LS.NUMBER_PICO8]
+_NUM = [re.compile(p) for p in LS.NUMBER_NO_TRAILING_DOT]     # the admitted reading that takes no trailing dot
 _SIMPLE = [('comment', re.compile(p)) for p in LS.COMMENT] + [('space', re.compile(p)) for p in LS.SPACE] + \
           [('newline', re.compile(p)) for p in LS.NEWLINE] + [('label', re.compile(p)) for p in LS.LABEL] + \
           [('name', re.compile(p)) for p in LS.QUESTION]
@@ -57,10 +57,6 @@ def denote(body):
                 raise Outside('bad \\x escape')
             out.append(int(h, 16))
             i += 3
-        elif c == ord('z'):
-            i += 1
-            while i < len(body) and body[i] in b' \t\r\n\f\v':
-                i += 1
         elif c in ESC:
             out.append(ESC[c])
             i += 1
